@@ -894,7 +894,16 @@ impl Inner {
             Some(key) => key,
             None => {
                 // A promise on a stream we already reset still reserves the
-                // promised stream, so it has to be refused explicitly.
+                // promised stream, so it has to be refused explicitly. The
+                // promised id must be a valid new one all the same: it is
+                // about to be used in a RST_STREAM and recorded as seen.
+                self.counts
+                    .peer()
+                    .ensure_can_open(promised_id, Open::PushPromise)?;
+                if promised_id < self.actions.recv.next_stream_id()? {
+                    proto_err!(conn: "recv_push_promise: promised id ({:?}) is not new", promised_id);
+                    return Err(Error::library_go_away(Reason::PROTOCOL_ERROR));
+                }
                 tracing::debug!(
                     "recv_push_promise for reset stream={:?}, canceling promised={:?}",
                     id,
